@@ -74,6 +74,22 @@ def items(tier, seed):
         if model_dims(A) == model_dims(B) or n_leaves(A) + n_leaves(B) > 5:
             continue
         out.append({"k": rng.choice(["d_add", "d_sub", "d_lt", "d_array_add"]), "A": A, "B": B})
+    # derived operands asked for / copied into a table unit of another dimension (also one that fits only their LEADING factor)
+    other = {"length": ["km", "s", "kg"], "time": ["h", "m", "kg"], "mass": ["g", "m", "s"]}
+    n_extra = 0
+    for na in names:
+        for A in pool[na]:
+            d = model_dims(A)
+            if n_leaves(A) < 2 or n_leaves(A) > 3 or not d or n_extra >= (90 if tier == "quick" else 900):
+                continue
+            lead = [b_["qt"] for b_ in exprs.BASIS.values() if _first_leaf(A)[1] in b_["units"]][0]
+            for tu in other[lead]:
+                tq = [b_["qt"] for b_ in exprs.BASIS.values() if tu in b_["units"]][0]
+                if d == {tq: 1}:
+                    continue
+                for kk in ("d_GetValue_simple", "d_CreateCopy_value_unit", "d_array_GetValues_simple", "d_quantity_Convert_simple"):
+                    out.append({"k": kk, "A": A, "B": ["leaf", tu, tq], "tu": tu})
+                    n_extra += 1
     for i, (a, ua, b, ub) in enumerate(pairs[:60 if tier == "quick" else 2000]):
         out.append({"k": EXTRA_KINDS[i % 2], "qa": a, "ua": ua, "qb": b, "ub": ub})
     for i, (a, ua, b, ub) in enumerate(pairs[60:60 + (100 if tier == "quick" else 3000)]):
@@ -82,7 +98,7 @@ def items(tier, seed):
         for side in ("left", "right"):
             for cmp_ in ("lt", "gt", "le", "ge"):
                 out.append({"k": "lt_same_unit_text", "sq": sq, "reg": reg, "side": side, "cmp": cmp_})
-    for c in [c for c in out if c["k"].startswith("d_")][::3]:
+    for c in [c for c in out if c["k"] in ("d_add", "d_sub", "d_lt", "d_array_add")][::3]:
         c["np"] = True
     for k in ("exempt_empty", "exempt_number"):
         for u in ("m", "degC", "kg/m3"):
@@ -90,6 +106,17 @@ def items(tier, seed):
     out.append({"k": "exempt_number", "ua": "m", "canary": True})
     rng.shuffle(out)
     return out
+
+
+def _first_leaf(spec):
+    if spec[0] == "leaf":
+        return spec
+    for s_ in spec[1:]:
+        if isinstance(s_, list) and s_[0] != "num":
+            r = _first_leaf(s_)
+            if r is not None:
+                return r
+    return None
 
 
 def inputs(cfg):
@@ -122,10 +149,14 @@ def _battery(db, cfg, V):
         base = db.GetUnits(qt)[0]
         s = Scalar(V["x"], u, qt)
         out.append((qt, u, base, s.GetValue(base), s.GetCategory(), s.GetUnit()))
-    s = Scalar(V["y"], "cm", "depth")
-    out.append(("length", "cm", "km", s.GetValue("km"), s.GetCategory(), s.GetUnit()))
-    q = ObtainQuantity("m", "length")
-    out.append(("length", "m", "m", (Scalar(V["x"], "m") + Scalar(V["y"], "cm")).GetValue(), q.GetCategory(), q.GetUnit()))
+    # a battery on a quantity type the configuration does not touch (construct_after_override re-registers the category named like cfg['qa'])
+    qt_, u1, u2, u3, cat_ = ("length", "m", "cm", "km", "depth") if "length" not in (cfg.get("qa"), cfg.get("qb")) else ("mass", "kg", "g", "lbm", "mass")
+    if cat_ == "mass" and "mass" in (cfg.get("qa"), cfg.get("qb")):
+        qt_, u1, u2, u3, cat_ = ("time", "s", "min", "h", "time")
+    s = Scalar(V["y"], u2, cat_)
+    out.append((qt_, u2, u3, s.GetValue(u3), s.GetCategory(), s.GetUnit()))
+    q = ObtainQuantity(u1, cat_)
+    out.append((qt_, u1, u1, (Scalar(V["x"], u1, cat_) + Scalar(V["y"], u2, cat_)).GetValue(), q.GetCategory(), q.GetUnit()))
     return out
 
 
@@ -168,7 +199,11 @@ def run(cfg, V):
                 mk = (lambda v: SymArray([v]) if core.is_sym(v) else numpy.array([v], dtype=float)) if cfg.get("np") else (lambda v: [v])
                 a = Array.CreateWithQuantity(a.GetQuantity(), mk(a.GetValue()))
                 b = Array.CreateWithQuantity(b.GetQuantity(), mk(b.GetValue()))
-            ops = {"d_add": lambda: a + b, "d_sub": lambda: a - b, "d_lt": lambda: a < b, "d_array_add": lambda: a + b}
+            if k == "d_array_GetValues_simple":
+                a = Array.CreateWithQuantity(a.GetQuantity(), (a.GetValue(), V["y"]))
+            ops = {"d_add": lambda: a + b, "d_sub": lambda: a - b, "d_lt": lambda: a < b, "d_array_add": lambda: a + b,
+                   "d_GetValue_simple": lambda: a.GetValue(cfg["tu"]), "d_CreateCopy_value_unit": lambda: a.CreateCopy(value=V["y"], unit=cfg["tu"]),
+                   "d_array_GetValues_simple": lambda: a.GetValues(cfg["tu"]), "d_quantity_Convert_simple": lambda: a.GetQuantity().Convert(V["y"], cfg["tu"])}
             fn = ops[k]
             operands = [a, b]
         else:
